@@ -38,7 +38,9 @@ TNext == /\ l <= Len(TraceLog) /\ l' = l + 1 /\ UNCHANGED vars
          /\ LET e == Ev
                 bad == CASE e.e = "Case" -> CaseBad(e)
                          [] e.e = "Sweep" -> IF e.mismatch = -1 THEN {} ELSE {"ScalarIdentity"}
-                         [] e.e = "Commute" -> IF AllEqual(e.ids) THEN {} ELSE {"CommuteTranscode"}
+                         [] e.e = "Commute" -> (IF AllEqual(e.ids) THEN {} ELSE {"CommuteTranscode"}) \cup
+                                               (* the characters outside ASCII come out again, all of them and in order *)
+                                               (IF e.naok THEN {} ELSE {"NonAsciiSurvives"})
                 drift == IF e.e = "Case" THEN CaseDrift(e) ELSE {}
             IN (bad # {} \/ drift # {}) => PrintT("@@" \o ToJson([l |-> l, id |-> e.id, bad |-> bad, drift |-> drift]))
 TInit == l = 1 /\ form = "plain" /\ payload = <<>> /\ o = Default
